@@ -161,7 +161,7 @@ func (ex *Exec) sliceElem(st *PState, s *SliceV, i *Term) Value {
 		fail("element of nil slice")
 	}
 	arr := walk(ex.objValue(st, s.Obj), s.Path).(*ArrayV)
-	return ex.selectElem(arr.E, ex.ts.Add(s.Off, i))
+	return ex.underGuard(st, ex.selectElem(arr.E, ex.ts.Add(s.Off, i)))
 }
 
 func (ex *Exec) sliceStore(st *PState, s *SliceV, i *Term, v Value) {
